@@ -188,6 +188,10 @@ type ZoneParser struct {
 
 	includeAllowed     bool
 	generateDisallowed bool
+
+	// generateLeft is how many records the text of the $GENERATE directive
+	// this (sub) parser expands may still denote: one per step of the range.
+	generateLeft int64
 }
 
 // NewZoneParser returns an RFC 1035 style zonefile parser that reads
@@ -284,6 +288,19 @@ func (zp *ZoneParser) Comment() string {
 	}
 
 	return zp.c.Comment()
+}
+
+// generated accounts for a record parsed from the expansion of a $GENERATE
+// directive and reports whether the directive may denote another one.
+func (zp *ZoneParser) generated() bool {
+	if !zp.generateDisallowed {
+		return true
+	}
+	if zp.generateLeft <= 0 {
+		return false
+	}
+	zp.generateLeft--
+	return true
 }
 
 func (zp *ZoneParser) subNext() (RR, bool) {
@@ -668,6 +685,10 @@ func (zp *ZoneParser) Next() (RR, bool) {
 					return zp.setParseError(err.err, err.lex)
 				}
 
+				if !zp.generated() {
+					return zp.setParseError("$GENERATE yields more than one record per step", l)
+				}
+
 				return rr, true
 			} else if l.value == zNewline {
 				return zp.setParseError("unexpected newline", l)
@@ -703,6 +724,10 @@ func (zp *ZoneParser) Next() (RR, bool) {
 				if err != nil {
 					return zp.setParseError(err.Error(), l)
 				}
+			}
+
+			if !zp.generated() {
+				return zp.setParseError("$GENERATE yields more than one record per step", l)
 			}
 
 			return rr, true
